@@ -21,7 +21,8 @@ let ints_of_line (s : string) : int list =
 let show_ints (l : z list) = String.concat " " (List.map (fun z -> string_of_int (int_of_z z)) l)
 let show_lines (ls : z list list) = String.concat " | " (List.map show_ints ls)
 
-type hist = { hid : int; cfg : config; mutable evs : event list (* reversed while parsing *) }
+type hist = { hid : int; cfg : config; mutable evs : event list (* reversed while parsing *);
+              mutable digs : n list list (* per event: payload digests of its deliveries, purge experiment *) }
 
 let props : (string * (Model.tproj * (config -> trace -> Model.violation list) * Model.skipper)) list = Props.table
 
@@ -34,6 +35,8 @@ let iter_file (file : string) (k : hist -> unit) : int =
   let cop : op option ref = ref None in
   let creq : req option ref = ref None in
   let couts : (n * msg) list ref = ref [] in
+  let cdigs : n list ref = ref [] in
+  let n_of_int (i : int) : n = match z_of_int i with Zpos p -> Npos p | _ -> N0 in
   let n_ev = ref 0 in
   (try
      while true do
@@ -46,12 +49,12 @@ let iter_file (file : string) (k : hist -> unit) : int =
            (match List.map z_of_int (ints_of_line rest) with
             | h :: c ->
               (match dec_cfg c with
-               | Some cfg -> cur := Some { hid = int_of_z h; cfg; evs = [] }
+               | Some cfg -> cur := Some { hid = int_of_z h; cfg; evs = []; digs = [] }
                | None -> fail_decode "cfg" line)
             | [] -> fail_decode "H" line)
          | 'O' ->
            (match dec_op (List.map z_of_int (ints_of_line rest)) with
-            | Some o -> cop := Some o; creq := None; couts := []
+            | Some o -> cop := Some o; creq := None; couts := []; cdigs := []
             | None -> fail_decode "op" line)
          | 'R' ->
            (match dec_req (List.map z_of_int (ints_of_line rest)) with
@@ -61,19 +64,25 @@ let iter_file (file : string) (k : hist -> unit) : int =
            (match List.map z_of_int (ints_of_line rest) with
             | c :: m ->
               (match dec_msg m with
-               | Some m' -> couts := ((match c with Z0 -> N0 | Zpos p -> Npos p | Zneg _ -> N0), m') :: !couts
+               | Some m' -> couts := ((match c with Z0 -> N0 | Zpos p -> Npos p | Zneg _ -> N0), m') :: !couts; cdigs := N0 :: !cdigs
                | None -> fail_decode "msg" line)
             | [] -> fail_decode "D" line)
+         | 'X' ->
+           (match ints_of_line rest, !cdigs with
+            | [d], _ :: tl -> cdigs := n_of_int d :: tl
+            | _ -> fail_decode "X" line)
+         | 'G' -> ()
          | 'V' ->
            (match !cur, !cop, ints_of_line rest with
             | Some h, Some o, [v] ->
               h.evs <- { ev_op = o; ev_req = !creq; ev_outs = List.rev !couts;
                          ev_verdict = dec_verdict (z_of_int v) } :: h.evs;
+              h.digs <- List.rev !cdigs :: h.digs;
               incr n_ev; cop := None
             | _ -> fail_decode "V" line)
          | 'E' ->
            (match !cur with
-            | Some h -> h.evs <- List.rev h.evs; k h; cur := None
+            | Some h -> h.evs <- List.rev h.evs; h.digs <- List.rev h.digs; k h; cur := None
             | None -> fail_decode "E" line)
          | '#' -> ()
          | _ -> fail_decode "tag" line
@@ -110,6 +119,49 @@ let () =
             show_viols hf.hid maxshow "  PVIOL" pv
           end) in
     Printf.printf "SUMMARY histories=%d events=%d bad=%d\n" !n_hist n_ev !n_bad;
+    exit (if !n_bad = 0 then 0 else 1)
+  end;
+  if prop = "C03purge" then begin
+    (* file: per experiment a "G <id> <n> <conns>" line, the full trace, the purged trace *)
+    let maxshow = if Array.length Sys.argv > 3 then int_of_string Sys.argv.(3) else 3 in
+    let groups : (int * n list) list ref = ref [] in
+    let ic = open_in Sys.argv.(2) in
+    (try while true do
+         let l = input_line ic in
+         if String.length l > 1 && l.[0] = 'G' then
+           (match ints_of_line (String.sub l 1 (String.length l - 1)) with
+            | id :: _ :: cs -> groups := (id, List.map (fun c -> match z_of_int c with Zpos p -> Npos p | _ -> N0) cs) :: !groups
+            | _ -> fail_decode "G" l)
+       done with End_of_file -> ());
+    close_in ic;
+    let groups = ref (List.rev !groups) in
+    let pending : hist option ref = ref None in
+    let n_skip = ref 0 and codes : (int, int) Hashtbl.t = Hashtbl.create 8 in
+    let n_ev = iter_file Sys.argv.(2) (fun h ->
+        match !pending with
+        | None -> pending := Some h
+        | Some full ->
+          pending := None;
+          let (gid, a) = match !groups with g :: tl -> groups := tl; g | [] -> (Printf.printf "DECODEFAIL nogroup: %d\n" h.hid; exit 2) in
+          incr n_hist;
+          let t1 = List.combine full.evs full.digs and t2 = List.combine h.evs h.digs in
+          let pv = run_P_C03_purge a t1 t2 in
+          (* diagnostic only: the experiment on the model's own runs (no violation code by the theorems) *)
+          let pvm = List.filter (fun v -> not (is_skip_code v.v_code)) (model_purge full.cfg a (List.map (fun e -> e.ev_op) full.evs)) in
+          show_viols gid maxshow "MODELVIOL" pvm;
+          let real = List.filter (fun v -> not (is_skip_code v.v_code)) pv in
+          List.iter (fun v -> let c = int_of_z v.v_code in Hashtbl.replace codes c (1 + try Hashtbl.find codes c with Not_found -> 0)) pv;
+          if pv = [] then Printf.printf "OK %d %d %d\n" gid (List.length full.evs) (List.length h.evs)
+          else if real = [] then begin
+            incr n_skip;
+            Printf.printf "SKIP %d code=%d at=%d\n" gid (int_of_z (List.hd pv).v_code) (int_of_nat (List.hd pv).v_index)
+          end else begin
+            incr n_bad;
+            Printf.printf "BAD %d mismatches=0 violations=%d\n" gid (List.length real);
+            show_viols gid maxshow "  PVIOL" real
+          end) in
+    Printf.printf "SUMMARY histories=%d events=%d bad=%d skipped=%d%s\n" !n_hist n_ev !n_bad !n_skip
+      (Hashtbl.fold (fun c k acc -> acc ^ Printf.sprintf " code%d=%d" c k) codes "");
     exit (if !n_bad = 0 then 0 else 1)
   end;
   let file = Sys.argv.(2) in
